@@ -3,8 +3,9 @@
 /verif/seeded/<PROP>-<n>/ with meta.json."""
 import json, os, shutil, sys
 p, n = sys.argv[1], sys.argv[2]
-src = '/tmp/seeded-out/%s/%s' % (p, n)
-dst = '/verif/seeded/%s-%s' % (p.upper(), n)
+base = os.environ.get('SEEDED_OUT', '/tmp/seeded-out')
+src = '%s/%s/%s' % (base, p, n)
+dst = '/verif/seeded/%s-%s' % (p.upper(), os.environ.get('SEEDED_AS', n))
 os.makedirs(dst, exist_ok=True)
 for f in ('patch.diff', 'demo.py', 'README.md'):
     shutil.copy(os.path.join(src, f), os.path.join(dst, f))
